@@ -110,8 +110,8 @@ Section RoundTrip.
   Theorem rt_get_file r name id : RS r -> In (name, id) (started 0 ops) ->
     exists r' bs, get_file r name = (r', Ok (Some (bs, len (pieces 0 id ops)))) /\ RS r' /\
       forall sizes, (forall i, 0 < sizes i) ->
-      forall fuel, (length (pieces 0 id ops) < fuel)%nat ->
-      exists bs', read_all fuel bs sizes 0%nat [] = (bs', Ok (pieces 0 id ops)) /\ b_mode bs' = BFinish.
+      forall zf fuel, (length (pieces 0 id ops) < fuel)%nat ->
+      exists bs', read_all zf fuel bs sizes 0%nat [] = (bs', Ok (pieces 0 id ops)) /\ b_mode bs' = BFinish.
   Proof.
     intros HRS Hin. destruct rt_setup as (s & bl & HI & Ho & Hout & Hf & Hn & Hd & Hl).
     rewrite <- (started_files s bl HI Hn) in Hin.
@@ -122,8 +122,8 @@ Section RoundTrip.
     destruct (get_file_spec FNMAX _ _ _ _ Htags S bl _ R HR' Hwf Hne id _ r name fi nm _ _ HRS Hlk Hoff Hproj)
       as (r' & bs & Hgf & HRS' & HRI).
     exists r', bs. rewrite Hsz, Hd in Hgf. split; [exact Hgf|]. split; [exact HRS'|].
-    intros sizes Hsz' fuel Hfuel. rewrite Hd in HRI.
-    exact (read_all_spec FNMAX _ _ _ _ Htags S bl _ R HR' Hwf Hne id sizes Hsz' fuel bs _ 0%nat [] HRI Hfuel).
+    intros sizes Hsz' zf fuel Hfuel. rewrite Hd in HRI.
+    exact (read_all_spec FNMAX _ _ _ _ Htags S bl _ R HR' Hwf Hne id sizes Hsz' zf fuel bs _ 0%nat [] HRI Hfuel).
   Qed.
 
   (* every single read with a positive buffer is Ok, delivers at most n of the next bytes,
@@ -131,8 +131,8 @@ Section RoundTrip.
   Theorem rt_reads_ok r name id : RS r -> In (name, id) (started 0 ops) ->
     exists r' bs (Inv : bstate S -> bytes -> Prop),
       get_file r name = (r', Ok (Some (bs, len (pieces 0 id ops)))) /\ Inv bs (pieces 0 id ops) /\
-      forall b todo n, Inv b todo -> 0 < n ->
-        exists b' d todo', bread FNMAX T_START T_CONTENT T_EOA T_EOF S b n = (b', Ok d) /\
+      forall zf b todo n, Inv b todo -> 0 < n ->
+        exists b' d todo', bread FNMAX T_START T_CONTENT T_EOA T_EOF S zf b n = (b', Ok d) /\
           len d <= n /\ todo = d ++ todo' /\ Inv b' todo' /\ (d = [] -> todo = [] /\ b_mode b' = BFinish).
   Proof.
     intros HRS Hin. destruct rt_setup as (s & bl & HI & Ho & Hout & Hf & Hn & Hd & Hl).
@@ -145,8 +145,8 @@ Section RoundTrip.
       as (r' & bs & Hgf & HRS' & HRI).
     exists r', bs, (RI T_START T_CONTENT T_EOA T_EOF S bl R id).
     rewrite Hsz, Hd in Hgf. rewrite Hd in HRI. split; [exact Hgf|]. split; [exact HRI|].
-    intros b todo n Hb Hn0.
-    exact (bread_step FNMAX _ _ _ _ Htags S bl _ R HR' Hwf Hne id b todo n Hb Hn0).
+    intros zf b todo n Hb Hn0.
+    exact (bread_step FNMAX _ _ _ _ Htags S bl _ R HR' Hwf Hne id zf b todo n Hb Hn0).
   Qed.
 
   (* 4. the stored hash *)
